@@ -797,4 +797,309 @@ theorem eval_radiolytic_node (ctx : Ctx ℝ) (names : List String) (g0 : ℝ) (g
   simp only [eval, call, hev, List.length_map, haa, ok_bind, get_some hrho]
   simp only [List.map_cons, radSum, get_some h0, ok_bind, hsum, pure_eq_ok, List.zipWith_cons_cons, List.sum_cons]
 
+/-! ### overrides: masking of the stored argument, key-only instances -/
+
+section generic
+variable {α : Type} [Add α] [Sub α] [Mul α] [Div α] [Neg α] [NatCast α] [PyNum α]
+
+/-- the override MASKS whatever the stored i-th argument evaluates to (a nested expression that fails, a missing variable, …):
+`vals` are the evaluated stored arguments, all but the i-th known to be `ok g[j]` -/
+theorem allArgs_override_masks (ctx : Ctx α) (k : Kind) (vals : List (Except Err α)) (g : List α) (u : List String) (i : Nat) (v : α)
+    (hlen : vals.length = g.length) (hn : k.nargs = some (g.length : Int) ∨ k.nargs = none) (hu : u.Nodup) (hi : i < u.length)
+    (hul : u.length ≤ g.length) (h : ∀ key ∈ u, ctx.vars key = none)
+    (hv : ∀ j (hj : j < g.length), j ≠ i → vals[j]? = some (.ok g[j])) :
+    allArgs (ctx.set u[i] v) k false g.length vals (some u) = .ok (g.set i v) := by
+  have hmap : (List.range g.length).mapM (argAt (ctx.set u[i] v) k false g.length vals (some u)) = .ok (g.set i v) := by
+    apply mapM_ok_idx _ _ _ (by simp)
+    intro j hj
+    have hj' : j < g.length := by simpa using hj
+    simp only [List.getElem_range]
+    unfold argAt
+    simp only [Bool.false_eq_true, if_false, Bool.false_or, decide_eq_true_eq]
+    by_cases hju : j < u.length
+    · rw [List.getElem?_eq_getElem hju]
+      simp only [Ctx.set]
+      by_cases hji : j = i
+      · subst hji
+        simp
+      · have hne : u[j] ≠ u[i] := fun he => hji ((List.Nodup.getElem_inj_iff hu).mp he)
+        simp [hne, h u[j] (List.getElem_mem hju), hv j hj' hji, List.getElem_set_ne (Ne.symm hji)]
+    · rw [List.getElem?_eq_none (Nat.le_of_not_lt hju)]
+      have hji : j ≠ i := by omega
+      simp [Nat.not_lt.mpr (Nat.le_of_lt hj'), hv j hj' hji, List.getElem_set_ne (Ne.symm hji)]
+  unfold allArgs
+  rcases hn with hn | hn
+  · rw [hn]
+    have : ((g.length : Int) == -1) = false := by
+      simp only [beq_eq_false_iff_ne, ne_eq]; omega
+    simp only [this, Bool.false_eq_true, if_false, pure_eq_ok, ok_bind, Int.toNat_natCast]
+    exact hmap
+  · rw [hn]
+    simp only [Bool.false_eq_true, if_false, pure_eq_ok, ok_bind]
+    exact hmap
+
+/-- key-only construction (`cls.fk(*keys)`, `self.args is None`): every argument comes from the variables -/
+theorem allArgs_fk (ctx : Ctx α) (k : Kind) (g : List α) (u : List String) (hlen : u.length = g.length)
+    (hn : k.nargs = some (g.length : Int)) (hv : ∀ j (hj : j < g.length), ctx.vars (u[j]'(hlen ▸ hj)) = some g[j]) :
+    allArgs ctx k true 0 [] (some u) = .ok g := by
+  have hmap : (List.range g.length).mapM (argAt ctx k true 0 [] (some u)) = .ok g := by
+    apply mapM_ok_idx _ _ _ (by simp)
+    intro j hj
+    have hj' : j < g.length := by simpa using hj
+    have hju : j < u.length := hlen ▸ hj'
+    simp only [List.getElem_range]
+    unfold argAt
+    simp only [List.getElem?_eq_getElem hju, hv j hj']
+  unfold allArgs
+  rw [hn]
+  have : ((g.length : Int) == -1) = false := by
+    simp only [beq_eq_false_iff_ne, ne_eq]; omega
+  simp only [this, Bool.false_eq_true, if_false, pure_eq_ok, ok_bind, Int.toNat_natCast]
+  exact hmap
+
+/-- … and a key-only instance whose (single) key is missing is `KeyError('Unique key missing')` -/
+theorem allArgs_fk_missing (ctx : Ctx α) (k : Kind) (key : String) (hn : k.nargs = some 1) (hv : ctx.vars key = none) :
+    allArgs ctx k true 0 [] (some [key]) = .error .keyError := by
+  unfold allArgs
+  rw [hn]
+  simp only [show ((1 : Int) == -1) = false from rfl, Bool.false_eq_true, if_false, pure_eq_ok, ok_bind]
+  show List.mapM _ [0] = _
+  simp only [List.mapM_cons, argAt, List.getElem?_cons_zero, hv]
+  rfl
+
+end generic
+theorem set_other {ctx : Ctx ℝ} {key k' : String} {v : ℝ} (h : k' ≠ key) : (ctx.set key v).vars k' = ctx.vars k' := by
+  simp [Ctx.set, h]
+
+/-- an override masks the stored argument whatever it is — a nested expression, even one whose own evaluation fails -/
+theorem eval_arrhenius_override_masks (ctx : Ctx ℝ) (a0 : Val ℝ) (E T v : ℝ) (key : String) (hk : ctx.vars key = none)
+    (hkT : key ≠ "temperature") (hT : ctx.vars "temperature" = some T) (hT0 : T ≠ 0) :
+    eval (ctx.set key v) (.node .arrhenius false [a0, .num E] (some [key])) = .ok (v * Real.exp (-E / T)) := by
+  have hT' : (ctx.set key v).vars "temperature" = some T := by rw [set_other (Ne.symm hkT)]; exact hT
+  have haa := allArgs_override_masks ctx .arrhenius
+    [noneArg .arrhenius (eval (childCtx .arrhenius (ctx.set key v)) a0), Except.ok E] [0, E] [key] 0 v rfl (Or.inl rfl)
+    (by simp) (by simp) (by simp) (by simpa using hk)
+    (by
+      intro j hj hj0
+      have : j = 1 := by simp at hj; omega
+      subst this; rfl)
+  simp only [List.length_cons, List.length_nil, List.getElem_cons_zero, List.set_cons_zero] at haa
+  simp only [eval, evalList, call, List.map_cons, List.map_nil, noneArg_ok, List.length_cons, List.length_nil, haa, ok_bind,
+    get_some hT', pyDiv_real hT0, exp_real, pure_eq_ok]
+
+/-- key-only construction `Arrhenius.fk(kA, kE)`: both arguments come from the variables -/
+theorem eval_arrhenius_fk (ctx : Ctx ℝ) (kA kE : String) (A E T : ℝ) (hA : ctx.vars kA = some A) (hE : ctx.vars kE = some E)
+    (hT : ctx.vars "temperature" = some T) (hT0 : T ≠ 0) :
+    eval ctx (.node .arrhenius true [] (some [kA, kE])) = .ok (A * Real.exp (-E / T)) := by
+  have haa := allArgs_fk ctx .arrhenius [A, E] [kA, kE] rfl rfl (by
+    intro j hj
+    have : j = 0 ∨ j = 1 := by simp at hj; omega
+    rcases this with rfl | rfl
+    · exact hA
+    · exact hE)
+  simp only [eval, evalList, call, List.map_nil, List.length_nil, haa, ok_bind, get_some hT, pyDiv_real hT0, exp_real, pure_eq_ok]
+
+/-- a key-only `MassAction.fk(key)` without its key is `KeyError` -/
+theorem eval_massAction_fk_missing (ctx : Ctx ℝ) (key : String) (hk : ctx.vars key = none) :
+    eval ctx (.node .massAction true [] (some [key])) = .error .keyError := by
+  have haa := allArgs_fk_missing ctx .massAction key rfl hk
+  simp only [eval, evalList, call, List.map_nil, List.length_nil, haa, error_bind]
+
+/-- `equilibrium_equation` for an equilibrium without any substance: `K - None` is `TypeError` -/
+theorem equilibriumEquation_empty (ctx : Ctx ℝ) (v : Val ℝ) (K : ℝ) (hK : eval ctx v = .ok K) :
+    equilibriumEquation ctx v [] [] = .error .typeError := by
+  simp [equilibriumEquation, hK, eqExponents, eqConcProd]
+
+/-- a `create_Piecewise` instance whose stored bounds / branches are arbitrary expressions that evaluate (without the
+`reaction` keyword, which `_pw` bodies do not forward) to the numbers `b` -/
+theorem eval_piecewise_node_exprs (ctx : Ctx ℝ) (p : String) (args : List (Val ℝ)) (b : List ℝ) (x : ℝ) (hx : ctx.vars p = some x)
+    (hargs : evalList (childCtx (.piecewise p) ctx) args = b.map Except.ok) :
+    eval ctx (.node (.piecewise p) false args none) = pwBody b x := by
+  have hlen : ∀ (c : Ctx ℝ) (l : List (Val ℝ)), (evalList c l).length = l.length := by
+    intro c l
+    induction l with
+    | nil => rfl
+    | cons a l ih => simp [evalList, ih]
+  have hl : args.length = b.length := by
+    have h1 := hlen (childCtx (.piecewise p) ctx) args
+    rw [hargs] at h1
+    simpa using h1.symm
+  have haa := allArgs_no_override ctx (.piecewise p) b none (Or.inr rfl) (by simp)
+  have hmap : (b.map (Except.ok (ε := Err))).map (noneArg (.piecewise p)) = b.map Except.ok := by
+    induction b with
+    | nil => rfl
+    | cons a l ih => simp
+  simp only [eval, call, hargs, hmap, hl, haa, ok_bind, get_some hx]
+
+theorem eval_rampedTemp_scaled (ctx ctx' : Ctx ℝ) (T0 dTdt t s θ : ℝ) (hs : s ≠ 0) (hθ : θ ≠ 0)
+    (ht : ctx.vars "time" = some t) (ht' : ctx'.vars "time" = some (t / s)) :
+    eval ctx' (.node .rampedTemp false [.num (T0 / θ), .num (dTdt * s / θ)] none)
+      = (eval ctx (.node .rampedTemp false [.num T0, .num dTdt] none)).map (· / θ) := by
+  rw [eval_rampedTemp_node ctx' _ _ _ ht', eval_rampedTemp_node ctx _ _ _ ht]
+  simp only [Except.map, Except.ok.injEq]
+  field_simp
+
+theorem eval_gibbs_scaled (ctx ctx' : Ctx ℝ) (dHR dSR T θ : ℝ) (hθ : θ ≠ 0) (hT0 : T ≠ 0)
+    (hT : ctx.vars "temperature" = some T) (hT' : ctx'.vars "temperature" = some (T / θ)) :
+    eval ctx' (.node .gibbsEqConst false [.num (dHR / θ), .num dSR] none)
+      = eval ctx (.node .gibbsEqConst false [.num dHR, .num dSR] none) := by
+  rw [eval_gibbs_node ctx' _ _ _ hT' (div_ne_zero hT0 hθ), eval_gibbs_node ctx _ _ _ hT hT0]
+  congr 2
+  field_simp
+
+theorem eval_radiolytic_scaled (ctx ctx' : Ctx ℝ) (g rho d a b : ℝ)
+    (hrho : ctx.vars "density" = some rho) (hd : ctx.vars "doserate" = some d)
+    (hrho' : ctx'.vars "density" = some (rho * a)) (hd' : ctx'.vars "doserate" = some (d * b)) (c : ℝ) :
+    eval ctx' (.node (.radiolytic [""]) false [.num (g * c)] none)
+      = (eval ctx (.node (.radiolytic [""]) false [.num g] none)).map (· * (a * b * c)) := by
+  have h1 := eval_radiolytic_node ctx' [] (g * c) [] (rho * a) (fun _ => d * b) "" rfl hrho' (by
+    intro k hk; simp [radSuffix] at hk; subst hk; exact hd')
+  have h2 := eval_radiolytic_node ctx [] g [] rho (fun _ => d) "" rfl hrho (by
+    intro k hk; simp [radSuffix] at hk; subst hk; exact hd)
+  simp only [List.map_cons, List.map_nil] at h1 h2
+  rw [h1, h2]
+  simp only [Except.map, List.zipWith_cons_cons, List.zipWith_nil_right, List.sum_cons, List.sum_nil, Except.ok.injEq]
+  ring
+
+/-! ### round 11: defaulted arguments, overrides in MassAction arithmetic, totality of the operators -/
+
+/-- `Eyring([c0, c1], unique_keys=(k0, k1, k2))`: `__init__` appends the default `conc0 = 1`, and the THIRD key then overrides that
+defaulted argument like any stored one -/
+theorem eval_eyring_default_override (ctx : Ctx ℝ) (c0 c1 T v : ℝ) (k0 k1 k2 : String) (reac : List (String × ℤ))
+    (hnd : [k0, k1, k2].Nodup) (hk : ∀ key ∈ [k0, k1, k2], ctx.vars key = none) (hkT : k2 ≠ "temperature")
+    (hT : ctx.vars "temperature" = some T) (hT0 : T ≠ 0) (hr : ctx.rxn = .some reac) (hv : 0 < v) :
+    mkNode .eyring (.list [.num c0, .num c1]) (some [k0, k1, k2])
+        = .ok (.node .eyring false [.num c0, .num c1, .num 1] (some [k0, k1, k2]))
+    ∧ eval (ctx.set k2 v) (.node .eyring false [.num c0, .num c1, .num 1] (some [k0, k1, k2]))
+        = .ok (c0 * T * Real.exp (-c1 / T) * v ^ (1 - order reac))
+    ∧ eval ctx (.node .eyring false [.num c0, .num c1, .num 1] (some [k0, k1, k2]))
+        = .ok (c0 * T * Real.exp (-c1 / T) * 1 ^ (1 - order reac)) := by
+  refine ⟨mkNode_eyring c0 c1 _ (by intro u hu; cases hu; simp), ?_, ?_⟩
+  · have haa := allArgs_override ctx .eyring [c0, c1, 1] [k0, k1, k2] 2 v (Or.inl rfl) hnd (by simp) (by simp) hk
+    simp only [List.length_cons, List.length_nil, List.map_cons, List.map_nil] at haa
+    have hT' : (ctx.set k2 v).vars "temperature" = some T := by rw [set_other (Ne.symm hkT)]; exact hT
+    have hr' : (ctx.set k2 v).rxn = .some reac := hr
+    simp only [eval, evalList, call, List.map_cons, List.map_nil, noneArg_ok, List.length_cons, List.length_nil] 
+    simp only [show ([k0, k1, k2] : List String)[2] = k2 from rfl] at haa
+    simp only [haa, ok_bind, List.set_cons_succ, List.set_cons_zero, get_some hT', pyDiv_real hT0, exp_real, pure_eq_ok, rxnOf, hr',
+      pow_real_int hv]
+  · exact eval_eyring_node ctx c0 c1 1 T _ reac (fun u hu => by cases hu; exact hk) hT hT0 hr one_pos
+
+/-- a named override inside `MassAction` arithmetic: `ma ∘ o` acts on the rate coefficient, and the coefficient is evaluated with the
+override present — `massAction_ops` at the context `ctx.set key v` -/
+theorem massAction_ops_override (ctx : Ctx ℝ) (c o e : Val ℝ) (key : String) (v k b : ℝ) (reac : List (String × ℤ)) (conc : String → ℝ)
+    (hr : ctx.rxn = .some reac) (hkey : ∀ p ∈ reac, p.1 ≠ key)
+    (hc : ∀ p ∈ reac, ctx.vars p.1 = some (conc p.1) ∧ 0 < conc p.1)
+    (hk : eval (ctx.set key v) c = .ok k) (hb : eval (ctx.set key v) o = .ok b) (hmo : o.isMassAction = false) :
+    let ma : Val ℝ := .node .massAction false [c] none
+    let P := (reac.map fun p => conc p.1 ^ p.2).prod
+    (pyMul ma o = .ok e → eval (ctx.set key v) e = .ok (k * b * P))
+    ∧ (pyMul o ma = .ok e → eval (ctx.set key v) e = .ok (k * b * P))
+    ∧ (pyDivOp ma o = .ok e → b ≠ 0 → eval (ctx.set key v) e = .ok (k / b * P))
+    ∧ (pyDivOp o ma = .ok e → k ≠ 0 → eval (ctx.set key v) e = .ok (b / k * P)) :=
+  massAction_ops (ctx.set key v) c o e k b reac conc hr
+    (fun p hp => by rw [set_other (hkey p hp)]; exact hc p hp) hk hb hmo
+
+theorem conv_total (v : Val ℝ) : ∃ v', conv v = .ok v' ∧ (v.isNode = true → v' = v) ∧ (constErr v = none → constErr v' = none) := by
+  cases v with
+  | num x => exact ⟨constNode x, rfl, by simp [Val.isNode], fun _ => rfl⟩
+  | str s => exact ⟨symbolNode s, rfl, by simp [Val.isNode], fun _ => rfl⟩
+  | node k na args uks => exact ⟨_, rfl, fun _ => rfl, id⟩
+
+theorem subShort_total (o : Val ℝ) (ho : noMA o = true) : ∃ b, subShort o = .ok b := by
+  cases o with
+  | num x => exact ⟨_, rfl⟩
+  | str s => exact ⟨_, rfl⟩
+  | node k na args uks =>
+    unfold subShort
+    split
+    · rename_i heq; cases heq
+    · rename_i heq; cases heq
+    · rename_i heq; cases heq; simp [noMA] at ho
+    · exact ⟨false, by simp [PyNum.isScalar]⟩
+    · exact ⟨false, rfl⟩
+
+/-- success side of `operators_are_homomorphic`: when does an operator build a tree at all? -/
+theorem operators_total (l r : Val ℝ) (hn : l.isNode = true ∨ r.isNode = true) (hml : noMA l = true) (hmr : noMA r = true)
+    (hcl : constErr l = none) (hcr : constErr r = none) :
+    (∃ e, pyAdd l r = .ok e) ∧ (∃ e, pyMul l r = .ok e) ∧ (∃ e, pyDivOp l r = .ok e) ∧ (∃ e, pyPow l r = .ok e)
+    ∧ (l.isNode = true → ∃ e, pySub l r = .ok e) := by
+  have hAdd : ∀ s o : Val ℝ, constErr o = none → ∃ e, exprAdd s o = .ok e := by
+    intro s o hco
+    obtain ⟨o', ho', _, hc'⟩ := conv_total o
+    unfold exprAdd
+    simp only [ho', ok_bind, hc' hco, pure_eq_ok]
+    split
+    · exact ⟨_, rfl⟩
+    · exact ⟨_, rfl⟩
+  have hMul : ∀ s o : Val ℝ, noMA s = true → noMA o = true → ∃ e, exprMul s o = .ok e := by
+    intro s o hs ho
+    obtain ⟨o', ho', _, _⟩ := conv_total o
+    unfold exprMul
+    simp only [noMA_isMA hs, noMA_isMA ho, Bool.false_eq_true, if_false, ho', ok_bind, pure_eq_ok]
+    split
+    · exact ⟨_, rfl⟩
+    · exact ⟨_, rfl⟩
+  have hRDiv : ∀ s o : Val ℝ, noMA s = true → ∃ e, exprRDiv s o = .ok e := by
+    intro s o hs
+    obtain ⟨o', ho', _, _⟩ := conv_total o
+    unfold exprRDiv
+    simp only [noMA_isMA hs, Bool.false_eq_true, if_false, ho', ok_bind, pure_eq_ok]
+    exact ⟨_, rfl⟩
+  have hDiv : ∀ s o : Val ℝ, noMA s = true → noMA o = true → ∃ e, exprDiv s o = .ok e := by
+    intro s o hs ho
+    obtain ⟨o', ho', _, _⟩ := conv_total o
+    unfold exprDiv
+    simp only [noMA_isMA hs, noMA_isMA ho, Bool.false_eq_true, if_false, ho', ok_bind, pure_eq_ok]
+    split
+    · exact ⟨_, rfl⟩
+    · exact ⟨_, rfl⟩
+  refine ⟨?_, ?_, ?_, ?_, ?_⟩
+  · unfold pyAdd
+    rcases hn with h | h
+    · simp only [h, if_true]; exact hAdd l r hcr
+    · by_cases h' : l.isNode = true
+      · simp only [h', if_true]; exact hAdd l r hcr
+      · simp only [h', Bool.false_eq_true, if_false, h, if_true]; exact hAdd r l hcl
+  · unfold pyMul
+    rcases hn with h | h
+    · simp only [h, if_true]; exact hMul l r hml hmr
+    · by_cases h' : l.isNode = true
+      · simp only [h', if_true]; exact hMul l r hml hmr
+      · simp only [h', Bool.false_eq_true, if_false, h, if_true]; exact hMul r l hmr hml
+  · unfold pyDivOp
+    rcases hn with h | h
+    · simp only [h, if_true]; exact hDiv l r hml hmr
+    · by_cases h' : l.isNode = true
+      · simp only [h', if_true]; exact hDiv l r hml hmr
+      · simp only [h', Bool.false_eq_true, if_false, h, if_true]; exact hRDiv r l hmr
+  · unfold pyPow
+    obtain ⟨r', hr', _, _⟩ := conv_total r
+    obtain ⟨l', hl', _, _⟩ := conv_total l
+    rcases hn with h | h
+    · simp only [h, if_true, hr', ok_bind, pure_eq_ok]; exact ⟨_, rfl⟩
+    · by_cases h' : l.isNode = true
+      · simp only [h', if_true, hr', ok_bind, pure_eq_ok]; exact ⟨_, rfl⟩
+      · simp only [h', Bool.false_eq_true, if_false, h, if_true, hl', ok_bind, pure_eq_ok]; exact ⟨_, rfl⟩
+  · intro h
+    unfold pySub
+    simp only [h, if_true]
+    obtain ⟨b, hb⟩ := subShort_total r hmr
+    obtain ⟨r', hr', _, _⟩ := conv_total r
+    unfold exprSub
+    simp only [hb, ok_bind, hr', pure_eq_ok]
+    cases b
+    · exact ⟨_, rfl⟩
+    · exact ⟨_, rfl⟩
+
+theorem arrheniusRateExpr_too_many_keys (a e : ℝ) (u : List String) (hu : 2 < u.length) :
+    arrheniusRateExpr a e (some u) = .error .valueError := by
+  have h : ((u.length : Int) > 2) := by exact_mod_cast hu
+  simp [arrheniusRateExpr, mkNode, Kind.nargs, Kind.argNames, Kind.nargsCls, Kind.defaults, h]
+
+theorem eyringRateExpr_too_many_keys (a e : ℝ) (u : List String) (hu : 3 < u.length) :
+    eyringRateExpr a e (some u) = .error .valueError := by
+  have h : ((u.length : Int) > 3) := by exact_mod_cast hu
+  simp [eyringRateExpr, mkNode, Kind.nargs, Kind.argNames, Kind.nargsCls, Kind.defaults, lastN, h]
+
 end ChemModel.PyExpr
